@@ -769,6 +769,11 @@ def copy_cases(draw):
 
 def check_copies(case, ctx):
     c = make(case["ctor"])
+    # other cosmologies are built (and used) between creating an object and copying it: a copy describes the
+    # object it was taken from, whatever was constructed or evaluated in between
+    import esutil.cosmology as _ec
+    other = _ec.Cosmo(omega_m=0.9, omega_l=0.3, omega_k=-0.2, flat=False, H0=42.0)
+    other.sigmacritinv(0.3, 0.8)
     how = case["how"]
     if how == "copy":
         d = must(c.copy)
